@@ -418,10 +418,14 @@ def match(result, tree, reader, check_attrs=True, attr_filter=None):
 # ----------------------------------------------------------------------------------------------
 
 DLESS = 7      # index of the <path> without a d attribute in SHAPES
+#               (index 8: a path WITH its own transform; what a reader makes of the transform differs by
+#                design - svg2paths ignores it, Document and SaxDocument apply it - so that element is not
+#                modelled; what is checked is that it does not disturb the paths around it)
 SHAPES = ['<rect x="1" y="2" width="30" height="40" fill="none"/>', '<circle cx="5" cy="5" r="2" id="c1"/>',
           '<ellipse cx="1" cy="2" rx="3" ry="4"/>', '<line x1="0" y1="0" x2="10" y2="5" stroke="red"/>',
           '<polyline points="0,0 1,1 2,0" class="pl"/>', '<polygon points="0,0 4,4 8,0"/>',
-          '<rect x="0" y="0" width="5" height="5" rx="1" ry="1"/>', '<path id="placeholder" class="todo"/>']
+          '<rect x="0" y="0" width="5" height="5" rx="1" ry="1"/>', '<path id="placeholder" class="todo"/>',
+          '<path d="M 1,1 L 2,3" transform="translate(30,40)" id="moved"/>']
 
 
 class ShortReadStream(io.RawIOBase):
@@ -567,7 +571,7 @@ class World:
                 # they are recognised by having no `d` attribute of their own and left out of the comparison
                 if len(p) != len(a):
                     return p, a            # the two lists do not even pair up: let the comparison say so
-                keep = [i for i, x in enumerate(a) if "d" in x]
+                keep = [i for i, x in enumerate(a) if "d" in x and "transform" not in x]
                 return [p[i] for i in keep], [a[i] for i in keep]
             if reader == "svg2paths":
                 p, a = svg2paths(name)
@@ -619,7 +623,8 @@ class World:
                     if data is None:
                         raise FileNotFoundError(name)
                     doc = Document.from_svg_string(data.decode(self.enc_of(name)))
-                ps = [q for q in doc.paths() if is_path_elem(q.element) and "d" in q.element.attrib]
+                ps = [q for q in doc.paths() if is_path_elem(q.element) and "d" in q.element.attrib
+              and "transform" not in q.element.attrib]
                 return ("ok", (ps, [dict(q.element.attrib) for q in ps], dict(doc.root.attrib)))
             if reader == "sax_reused":
                 # ONE reader object used for one file after the other (sax_parse is a public method)
@@ -630,12 +635,14 @@ class World:
                     self.probe("reader_object_used_for_a_second_file")
                     sx.sax_parse(name)
                 ps = sx.flatten_all_paths()
-                keep = [i for i, v in enumerate(sx.tree) if v.get("name", "path") == "path" and v.get("d", "x") != ""]
+                keep = [i for i, v in enumerate(sx.tree) if v.get("name", "path") == "path" and v.get("d", "x") != ""
+                        and "transform" not in v]
                 return ("ok", ([ps[i] for i in keep], [dict(sx.tree[i]) for i in keep], dict(sx.root_values)))
             if reader == "sax":
                 sx = SaxDocument(name)
                 ps = sx.flatten_all_paths()
-                keep = [i for i, v in enumerate(sx.tree) if v.get("name", "path") == "path" and v.get("d", "x") != ""]
+                keep = [i for i, v in enumerate(sx.tree) if v.get("name", "path") == "path" and v.get("d", "x") != ""
+                        and "transform" not in v]
                 return ("ok", ([ps[i] for i in keep], [dict(sx.tree[i]) for i in keep], dict(sx.root_values)))
         except SimCrash:
             raise
@@ -971,7 +978,8 @@ class World:
             self.violate(idx, "read_failed", {"file": name, "status": oc[0]}, fm.alts[-1].writer,
                          fm.alts[-1].shape(), "document", fault)
             return oc[0]
-        ps = [q for q in oc[1] if is_path_elem(q.element) and "d" in q.element.attrib]
+        ps = [q for q in oc[1] if is_path_elem(q.element) and "d" in q.element.attrib
+              and "transform" not in q.element.attrib]
         res = (ps, [dict(q.element.attrib) for q in ps], dict(doc.root.attrib))
         chosen = None
         for tree in fm.alts:
@@ -1117,14 +1125,32 @@ class World:
         self.check_doc(idx, op, dm)
         return "ok"
 
+    @staticmethod
+    def _filters(op):
+        """non-default but all-accepting filters: results must be what they are without them"""
+        kw = {}
+
+        def is_container(el):
+            t = el.tag if isinstance(el.tag, str) else ""
+            return t.rsplit("}", 1)[-1] in ("g", "svg")
+        if op.get("pfilter"):
+            kw["path_filter"] = lambda el: not is_container(el)     # every path/shape element, no container
+        if op.get("gfilter"):
+            kw["group_filter"] = is_container                        # every container, nothing else
+        return kw
+
     def check_doc(self, idx, op, dm):
         """Visibility: the Document's own queries see what was added, at its place."""
-        st, ps, _ = self.run({"faults": []}, lambda: dm.obj.paths())
+        fkw = self._filters(op)
+        if fkw:
+            self.probe("query_with_explicit_filters")
+        st, ps, _ = self.run({"faults": []}, lambda: dm.obj.paths(**fkw))
         if st != "ok":
             self.violate(idx, "read_failed", {"status": st, "op": "Document.paths()"}, "document", dm.tree.shape(),
                          "document-live")
             return
-        ps = [q for q in ps if is_path_elem(q.element) and "d" in q.element.attrib]
+        ps = [q for q in ps if is_path_elem(q.element) and "d" in q.element.attrib
+              and "transform" not in q.element.attrib]
         res = (ps, [dict(q.element.attrib) for q in ps], dict(dm.obj.root.attrib))
         m = match(res, dm.tree, "document-live")
         self.bump(self.counters, "document_live_query_checked")
@@ -1172,7 +1198,10 @@ class World:
             gnode = dm.tree.find_group(names)
             arg = self._names_arg(op, names)
         recursive = bool(op.get("recursive", True))
-        st, ps, _ = self.run({"faults": []}, lambda: dm.obj.paths_from_group(arg, recursive=recursive))
+        fkw = self._filters(op)
+        if fkw:
+            self.probe("query_with_explicit_filters")
+        st, ps, _ = self.run({"faults": []}, lambda: dm.obj.paths_from_group(arg, recursive=recursive, **fkw))
         if st != "ok":
             self.violate(idx, "read_failed", {"status": st, "op": "paths_from_group"}, "document", dm.tree.shape(),
                          "document-live-group")
@@ -1185,7 +1214,8 @@ class World:
         if not recursive:
             sub.children = [c for c in sub.children if isinstance(c, PNode)]
             self.probe("paths_from_group_not_recursive")
-        ps = [q for q in ps if is_path_elem(q.element) and "d" in q.element.attrib]
+        ps = [q for q in ps if is_path_elem(q.element) and "d" in q.element.attrib
+              and "transform" not in q.element.attrib]
         res = (ps, [dict(q.element.attrib) for q in ps], None)
         m = match(res, sub, "document-live-group")
         if m is not None:
@@ -1303,7 +1333,8 @@ class World:
             elif "group" in item:
                 g = GNode(item["group"], {"id": item["group"]})
                 tree.children.append(g)
-                lines.append('  <g id=%s>' % quoteattr(item["group"]))
+                lines.append('  <g id=%s%s>' % (quoteattr(item["group"]),
+                                                 (" style=%s" % quoteattr(item["gstyle"])) if item.get("gstyle") else ""))
                 for spec in item["paths"]:
                     if "shape" in spec:
                         lines.append("    " + SHAPES[spec["shape"] % len(SHAPES)])
@@ -1617,6 +1648,8 @@ class Gen:
             a["id"] = "root%d" % r.randint(1, 9)
         if r.random() < 0.15:
             a["xml:space"] = "preserve"
+        if r.random() < 0.15:
+            a["style"] = r.choice(STYLE_VALS)
         return a or None
 
     def fault(self, r, opname, world):
@@ -1758,16 +1791,17 @@ class Gen:
                         sp = self.pathspec(a)
                         sp["attrs"] = self.attrs(a, sp["pid"])
                         ps.append(sp)
-                    items.append({"group": a.choice(["g1", "g3", "layer 1"]), "paths": ps})
+                    items.append({"group": a.choice(["g1", "g3", "layer 1"]), "paths": ps,
+                                  "gstyle": a.choice([None, None, "fill:blue", "stroke:#000;fill:none"])})
                 else:
                     sp = self.pathspec(a)
                     sp["attrs"] = self.attrs(a, sp["pid"])
                     items.append(sp)
                 if a.random() < 0.3:
-                    items.append({"shape": a.randrange(8)})
+                    items.append({"shape": a.randrange(9)})
             for it in items:
                 if "group" in it and a.random() < 0.3:
-                    it["paths"].insert(a.randrange(len(it["paths"]) + 1), {"shape": a.randrange(8)})
+                    it["paths"].insert(a.randrange(len(it["paths"]) + 1), {"shape": a.randrange(9)})
             for it in items:          # hand-made files: plain Path objects only
                 for sp in ([it] if "segs" in it else it.get("paths", [])):
                     sp.pop("reuse", None); sp.pop("edit", None); sp.pop("np", None)
@@ -1845,6 +1879,10 @@ class Gen:
             at = {"id": nm}
             if a.random() < 0.4:
                 at["class"] = a.choice(VAL_SIMPLE)
+            if a.random() < 0.3:
+                at["style"] = a.choice(STYLE_VALS)       # a container's style must not leak into its paths
+            if a.random() < 0.2:
+                at["fill"] = a.choice(VAL_SIMPLE)
             return {"op": k, "doc": d, "attrs": at, "parent": parent}
         if k == "doc_get_or_add_group":
             op = {"op": k, "doc": d, "names": a.choice(GROUP_POOL)}
@@ -1852,8 +1890,9 @@ class Gen:
                 op["names_ref"] = "L%d" % GROUP_POOL.index(op["names"])
             return op
         if k == "doc_set_root_attr":
-            key = a.choice(["width", "height", "viewBox", "data-x", "id"])
-            val = {"width": "100px", "height": "50px", "viewBox": "0 0 10 10", "id": "root7"}.get(
+            key = a.choice(["width", "height", "viewBox", "data-x", "id", "style"])
+            val = {"width": "100px", "height": "50px", "viewBox": "0 0 10 10", "id": "root7",
+                   "style": "fill:blue;stroke:none"}.get(
                 key, a.choice(VAL_NASTY if self.attr_mode == "nasty" else VAL_SIMPLE))
             return {"op": k, "doc": d, "key": key, "value": val}
         if k == "doc_save":
@@ -1867,11 +1906,12 @@ class Gen:
             return {"op": k, "doc": d, "i": a.randrange(8), "how": a.choice(["append", "del"]), "z": self.pt(a),
                     "z2": self.pt(a)}
         if k == "doc_paths":
-            return {"op": k, "doc": d}
+            return {"op": k, "doc": d, "pfilter": a.random() < 0.4, "gfilter": a.random() < 0.3}
         if k == "doc_paths_from_group":
             if a.random() < 0.25:
                 return {"op": k, "doc": d, "names": {"str": a.choice(["sgrp1", "sgrp2", "layer"])}, "recursive": True}
-            return {"op": k, "doc": d, "names": a.choice(GROUP_POOL), "recursive": a.random() < 0.7}
+            return {"op": k, "doc": d, "names": a.choice(GROUP_POOL), "recursive": a.random() < 0.7,
+                    "pfilter": a.random() < 0.35, "gfilter": a.random() < 0.25}
         return None
 
 
@@ -2028,7 +2068,7 @@ EXPECTED_PROBES = [
     "pathlib_file_name", "paths_from_group_not_recursive", "document_loaded_from_foreign",
     "same_path_object_written_again", "segment_edited_in_place_between_two_writes", "group_given_as_plain_string",
     "reader_object_used_for_a_second_file", "query_result_edited_by_the_caller", "foreign_file_with_other_shapes",
-    "nodes_drawn_as_circles", "working_directory_changed",
+    "nodes_drawn_as_circles", "working_directory_changed", "query_with_explicit_filters",
 ]
 
 
